@@ -130,12 +130,12 @@ pub proof fn lemma_distinct_prefix_iff<B: AsRefBytes>(l: Seq<(Pk, B)>, n: int)
 }
 pub proof fn lemma_seen_iff<B: AsRefBytes>(l: Seq<(Pk, B)>, n: int, b: Seq<u8>)
     requires 0 <= n <= l.len(),
-    ensures seen(l, n, b) <==> (exists|i: int| 0 <= i < n && (#[trigger] l[i]).1.bytes() == b),
+    ensures msg_seen(l, n, b) <==> (exists|i: int| 0 <= i < n && (#[trigger] l[i]).1.bytes() == b),
     decreases n
 {
     if n > 0 {
         lemma_seen_iff(l, n - 1, b);
-        if seen(l, n, b) {
+        if msg_seen(l, n, b) {
             if l[n - 1].1.bytes() == b { assert(0 <= n - 1 < n && l[n - 1].1.bytes() == b); }
             else { let i = choose|i: int| 0 <= i < n - 1 && (#[trigger] l[i]).1.bytes() == b; assert(0 <= i < n && l[i].1.bytes() == b); }
         }
